@@ -266,7 +266,7 @@ func gen(t *rapid.T) Case {
 	if sameBase {
 		files = rapid.IntRange(2, 3).Draw(t, "files-samebase")
 	}
-	s := sdlgen.Generate(t, sdlgen.Options{SameBase: sameBase, ExecNames: splitModel, Files: files, Roots: true, Hostile: rapid.Bool().Draw(t, "hostile"), DeprecatedInputs: true, MaxTypes: 14, ExecDirectives: true, Cycles: true})
+	s := sdlgen.Generate(t, sdlgen.Options{SameBase: sameBase, ExecNames: splitModel, RichDirectiveArgs: true, Files: files, Roots: true, Hostile: rapid.Bool().Draw(t, "hostile"), DeprecatedInputs: true, MaxTypes: 14, ExecDirectives: true, Cycles: true})
 	schema, err := loadSchema(s.Files)
 	if err != nil {
 		t.Skip("invalid schema")
